@@ -497,6 +497,17 @@ func genC32(g *gen) {
 		agentByID = byID != token.NoPos && r1 != token.NoPos && r2 != token.NoPos
 		agentChecksConn = peerCall(fd.Body, func(s string) bool { return strings.HasSuffix(s, "peerMgr.GetPeer") }) != token.NoPos
 	}
+	// the by-peer-id cleanup is reachable only as the manager's callback (which applies the stale /
+	// once checks and the lifecycle lock): no other call site in the agent package
+	otherCalls := 0
+	for _, f := range parseDir("internal/agent") {
+		ast.Inspect(f, func(n ast.Node) bool {
+			if c, ok := n.(*ast.CallExpr); ok && strings.HasSuffix(peerNorm(src(c.Fun)), ".handlePeerDisconnect") {
+				otherCalls++
+			}
+			return true
+		})
+	}
 	wired := false
 	if fd := findFunc(af, "Agent", "initComponents"); fd != nil {
 		ast.Inspect(fd.Body, func(n ast.Node) bool {
@@ -566,4 +577,5 @@ func genC32(g *gen) {
 	g.line("Definition gen_disconnect_delete_under_lock : bool := %s.", coqBool(dAtomic))
 	g.line("Definition gen_loops_close_their_own_connection : bool := %s.", coqBool(loopsOwn))
 	g.line("Definition gen_agent_cleanup_synchronous : bool := %s.", coqBool(agentSync))
+	g.line("Definition gen_agent_cleanup_direct_calls : N := %d.", otherCalls)
 }
